@@ -17,6 +17,12 @@ amp       every template of verif.props.c12_templates (a file of about 2 KB or l
           plus bytes that slices / scanning methods of the delivered buffers go through: the C-level work on the input that no LINE
           event shows, e.g. data[:pos].count(..) per item).  Clause `cost`:
               events <= 2*10^6 + 2000 * size      peak additional memory <= 32 MiB + 64 * size      input volume <= 4 MiB + 64 * size
+          Entity-bomb templates (kind exp) are judged more sharply (clause `cost`, _materialised): against the SAME template at the
+          smallest expansion of its lattice, text output may grow by 64 Ki characters + 64 * size and peak memory by 1 MiB + 64 * size
+          and no more (the parser's own guard only starts at 8 MiB of output, which the 32 MiB base can never see).  The bomb sits in the
+          main part (10^1..10^6 quick / ..10^9) and, one template per member, in EVERY XML member of a docx / pptx / xlsx / odt / ods /
+          odp / odg / epub package: content types, relationships, core properties, styles, meta, manifest, shared strings,
+          workbook / presentation, container / OPF / chapter (38 templates, expansion 10^3, 10^6 quick / + 10^7, 10^9 thorough).
           Families added for what lives in C code only: mbox separator lines that delimit EMPTY messages in five layouts (before /
           after / between real messages, blank lines between, CRLF, nothing but separators), n = 1..10^4 quick / ..10^5 thorough;
           archives with one member of n zero bytes also for n = per-member limit, limit + 1 and 10^8 in the quick tier (no member
@@ -134,6 +140,44 @@ def _superlinear(tid, n, m, v):
     return v, "; no smaller magnitude is within budget"
 
 
+ENT_OUT_SLACK = 64 << 10          # characters of text
+ENT_MEM_SLACK = 1 << 20           # bytes of peak additional memory
+
+
+def _text_len(m):
+    return m["value"][1] if m.get("value") else 0
+
+
+def _materialised(tid, n, b, m):
+    """Entity-bomb templates (kind exp): the file is the SAME file but for the number of nesting levels of the entity declarations (a few
+    dozen bytes per level), so "irrespective of entity tricks" is judged against the same template at the smallest expansion n0 of its
+    lattice, measured in the same process: the text that comes out and the peak additional memory may exceed those of n0 by 64 bytes
+    per input byte plus a slack (64 Ki characters / 1 MiB) and no more.  An expansion that is carried out shows here long before it
+    reaches the fixed 32 MiB base of the general budget (expat's own amplification guard only starts at 8 MiB of output, so the
+    general budget alone can never see an entity expansion).  Refusing, ignoring or dropping the reference all pass.
+    -> list of violated counters (strings)"""
+    from verif.props import c12_meter as M
+    from verif.props import c12_templates as T
+    out, pk = _text_len(m), (m["peak"] or 0)
+    so, sm = ENT_OUT_SLACK + M.MEM_PER_BYTE * b["size"], ENT_MEM_SLACK + M.MEM_PER_BYTE * b["size"]
+    if out <= so and pk <= sm:
+        return []                                      # within the allowance even against a baseline of nothing
+    n0 = T.magnitudes(tid, "quick")[0]
+    if n0 >= n:
+        return []
+    b0 = T.build(tid, n0)
+    m0 = M.measure(_extract_fn(b0["name"], b0["data"]), b0["size"])
+    out0, pk0 = _text_len(m0), (m0["peak"] or 0)
+    res = []
+    if out > out0 + so:
+        res.append(f"entity expansion materialised: {out} characters of text against {out0} for the same file with expansion {n0} "
+                   f"(allowance {so} more)")
+    if pk > pk0 + sm:
+        res.append(f"entity expansion materialised: peak additional memory {pk} B against {pk0} B for the same file with expansion {n0} "
+                   f"(allowance {sm} B more)")
+    return res
+
+
 def eval_amp(case):
     from verif.props import c12_meter as M
     from verif.props import c12_templates as T
@@ -154,6 +198,8 @@ def eval_amp(case):
     growth = ""
     if v and T.TEMPLATES[tid]["kind"] == "grow":
         v, growth = _superlinear(tid, n, m, v)
+    if not v and T.TEMPLATES[tid]["kind"] == "exp":
+        v = _materialised(tid, n, b, m)
     if v:
         fails.append(("cost", f"{T.TEMPLATES[tid]['doc']} | n={n}: file of {len(b['data'])} bytes (uncompressed size {b['size']}): " + "; ".join(v) +
                       growth + f" [events={m['events']} volume={m.get('volume')} peak={m['peak']} cpu={m['cpu']}s outcome={m['exc'] or m['value']}]"))
@@ -853,6 +899,7 @@ def run(ctx):
                    "limit verdict classes",
            "templates": len(T.TEMPLATES), "per_part": per_part, "outcomes": dict(sorted(outcomes.items())),
            "budget": {"events": "2e6 + 2000 * size", "memory_bytes": "32 MiB + 64 * size", "input_volume_bytes": "4 MiB + 64 * size",
+                      "entity_bomb_vs_smallest_expansion": "text +64 Ki chars + 64 * size; peak memory +1 MiB + 64 * size",
                       "cpu_backstop_s": M.CPU_LIMIT,
                       "rlimit_as": "3 GiB", "counted_packages": M.PACKAGES},
            "fixture_maxima": {"files_measured": len(fx), "note": "per-byte maxima over fixtures of at least 4 KiB; budget constants: 2000 events / byte, 64 bytes / byte",
@@ -867,6 +914,8 @@ def run(ctx):
            "over_budget_magnitudes": {k: sorted(v) for k, v in sorted(amp_over.items())},
            "bounds": {"tier": ctx.tier, "lattices": {k: v[0 if ctx.quick else 1] for k, v in T.MAGS.items()},
                       "doc_picture_headers": T.DOC_PIC_MAGS[0 if ctx.quick else 1], "doc_stream_bytes": T.DOC_STREAM,
+                      "entity_bomb_in_every_xml_member": {"expansions": T.PART_BOMB_MAGS[0 if ctx.quick else 1],
+                                                          "templates": sorted(t for t in T.TEMPLATES if "-part" in t and t.endswith("-entity-bomb"))},
                       "member_limit_company": list(OTHERS), "member_limit_company_quick": "company != ok: configured limit 1000 (all d); default limit: d=+1, alone",
                       "mbox_empty_message_layouts": sorted(T.MBOX_EMPTY), "archive_zero_member_sizes": T.ZMAGS[0 if ctx.quick else 1],
                       "max_file_size_path_kinds": list(PATH_KINDS), "max_file_size_limits": ["0", "1", "s-1", "s", "s+1"]}}
